@@ -47,106 +47,415 @@ func isSortCall(ins ssa.Instruction) bool {
 	return strings.HasPrefix(n, "sort") || strings.HasPrefix(n, "Sort")
 }
 
-// mapRangeAppend describes a range over a map whose body appends to a slice that outlives the loop.
+// mapRangeAppend describes a loop over an unordered source (a map, or a list in map order) whose body appends to a
+// slice that outlives the loop.
 type mapRangeAppend struct {
-	fn     *ssa.Function
-	rng    *ssa.Range
-	sorted bool
-	ranged string
+	fn       *ssa.Function
+	pos      token.Pos
+	sorted   bool     // every target the loop appends to is sorted after the loop
+	ranged   string
+	unsorted []string // targets that are not
 }
 
-func mapRangesWithAppend(fn *ssa.Function) []mapRangeAppend {
+// appendTarget identifies the slice variable an append feeds: a local (the header phi), a cell, or a struct field.
+type appendTarget struct {
+	desc  string
+	phi   *ssa.Phi
+	cell  *ssa.Alloc
+	field *types.Var
+}
+
+// derivesFromTarget: v is the target's current value (through phis, re-slicing, conversions, interface boxing).
+func (t appendTarget) matches(v ssa.Value, depth int, seen map[ssa.Value]bool) bool {
+	if depth > 12 || seen[v] {
+		return false
+	}
+	seen[v] = true
+	switch x := v.(type) {
+	case *ssa.Phi:
+		if t.phi != nil && x == t.phi {
+			return true
+		}
+		for _, e := range x.Edges {
+			if t.matches(e, depth+1, seen) {
+				return true
+			}
+		}
+	case *ssa.Call:
+		if isAppendCall(x) && len(x.Call.Args) > 0 {
+			return t.matches(x.Call.Args[0], depth+1, seen)
+		}
+	case *ssa.Slice:
+		return t.matches(x.X, depth+1, seen)
+	case *ssa.ChangeType:
+		return t.matches(x.X, depth+1, seen)
+	case *ssa.Convert:
+		return t.matches(x.X, depth+1, seen)
+	case *ssa.MakeInterface:
+		return t.matches(x.X, depth+1, seen)
+	case *ssa.UnOp:
+		if x.Op == token.MUL {
+			if a, ok := x.X.(*ssa.Alloc); ok && t.cell != nil && a == t.cell {
+				return true
+			}
+			if fa, ok := x.X.(*ssa.FieldAddr); ok && t.field != nil && fieldVar(fa.X.Type(), fa.Field) == t.field {
+				return true
+			}
+		}
+	}
+	return false
+}
+
+// appendTargets: where the result of an append instruction is kept (header phi of the loop, cell, field).
+func appendTargets(a ssa.Value, H *ssa.BasicBlock) []appendTarget {
+	var out []appendTarget
+	if H != nil {
+		for _, hi := range H.Instrs {
+			if ph, ok := hi.(*ssa.Phi); ok && phiContains(ph, a) {
+				out = append(out, appendTarget{desc: "local " + ph.Comment, phi: ph})
+			}
+		}
+	}
+	for _, r := range *a.Referrers() {
+		if st, ok := r.(*ssa.Store); ok && st.Val == a {
+			switch ad := st.Addr.(type) {
+			case *ssa.Alloc:
+				out = append(out, appendTarget{desc: "variable " + ad.Comment, cell: ad})
+			case *ssa.FieldAddr:
+				fv := fieldVar(ad.X.Type(), ad.Field)
+				out = append(out, appendTarget{desc: "field " + fv.Name(), field: fv})
+			}
+		}
+	}
+	return out
+}
+
+// sortedFrom: some sort call reachable from the given blocks takes the target as an argument (or receiver).
+func sortedFrom(starts []*ssa.BasicBlock, t appendTarget) bool {
+	seen := map[*ssa.BasicBlock]bool{}
+	st := append([]*ssa.BasicBlock{}, starts...)
+	for len(st) > 0 {
+		b := st[len(st)-1]
+		st = st[:len(st)-1]
+		if seen[b] {
+			continue
+		}
+		seen[b] = true
+		for _, ins := range b.Instrs {
+			if !isSortCall(ins) {
+				continue
+			}
+			cc := ins.(ssa.CallInstruction).Common()
+			args := append([]ssa.Value{}, cc.Args...)
+			if cc.IsInvoke() {
+				args = append(args, cc.Value)
+			}
+			for _, a := range args {
+				if t.matches(a, 0, map[ssa.Value]bool{}) {
+					return true
+				}
+			}
+		}
+		st = append(st, b.Succs...)
+	}
+	return false
+}
+
+func loopMembers(fn *ssa.Function, H *ssa.BasicBlock) map[*ssa.BasicBlock]bool {
+	member := map[*ssa.BasicBlock]bool{H: true}
+	changed := true
+	for changed {
+		changed = false
+		for _, b := range fn.Blocks {
+			if member[b] || !H.Dominates(b) {
+				continue
+			}
+			for _, s := range b.Succs {
+				if member[s] {
+					member[b] = true
+					changed = true
+					break
+				}
+			}
+		}
+	}
+	return member
+}
+
+// unorderedLoops: loops over a map, or over a slice for which unorderedList holds, that append to a loop-carried slice.
+func unorderedLoops(fn *ssa.Function, unorderedList func(ssa.Value) bool) []mapRangeAppend {
 	var out []mapRangeAppend
 	for _, l := range rangeLoops(fn) {
-		if l.Over == nil {
+		if l.Over == nil || l.Header == nil {
 			continue
 		}
-		if _, isMap := l.Over.Type().Underlying().(*types.Map); !isMap {
+		_, isMap := l.Over.Type().Underlying().(*types.Map)
+		if !isMap && (unorderedList == nil || !unorderedList(l.Over)) {
 			continue
 		}
-		var rng *ssa.Range
-		for _, ins := range l.Header.Instrs {
-			if n, ok := ins.(*ssa.Next); ok {
-				rng, _ = n.Iter.(*ssa.Range)
-			}
-		}
-		if rng == nil {
-			continue
-		}
-		// natural loop members
 		H := l.Header
-		member := map[*ssa.BasicBlock]bool{H: true}
-		changed := true
-		for changed {
-			changed = false
-			for _, b := range fn.Blocks {
-				if member[b] || !H.Dominates(b) {
-					continue
-				}
-				for _, s := range b.Succs {
-					if member[s] {
-						member[b] = true
-						changed = true
-						break
-					}
-				}
+		member := loopMembers(fn, H)
+		var targets []appendTarget
+		seenT := map[string]bool{}
+		for _, b := range fn.Blocks {
+			if !member[b] {
+				continue
 			}
-		}
-		// appends inside the loop whose result flows into a phi at the header (loop-carried slice)
-		carried := false
-		for b := range member {
 			for _, ins := range b.Instrs {
 				if !isAppendCall(ins) {
 					continue
 				}
-				v := ins.(ssa.Value)
-				for _, hi := range H.Instrs {
-					if ph, ok := hi.(*ssa.Phi); ok && phiContains(ph, v) {
-						carried = true
-					}
-				}
-				// or stored to an outer cell / field
-				for _, r := range *v.Referrers() {
-					if st, ok := r.(*ssa.Store); ok {
-						if _, isAlloc := st.Addr.(*ssa.Alloc); isAlloc {
-							carried = true
-						}
-						if _, isFA := st.Addr.(*ssa.FieldAddr); isFA {
-							carried = true
-						}
+				for _, t := range appendTargets(ins.(ssa.Value), H) {
+					if !seenT[t.desc] {
+						seenT[t.desc] = true
+						targets = append(targets, t)
 					}
 				}
 			}
 		}
-		if !carried {
+		if len(targets) == 0 {
 			continue
 		}
-		// a sort call after the loop (reachable from the loop exit) in the same function
-		sorted := false
-		seen := map[*ssa.BasicBlock]bool{}
-		st := []*ssa.BasicBlock{}
-		for _, s := range H.Succs {
-			if !member[s] {
-				st = append(st, s)
-			}
-		}
-		for len(st) > 0 {
-			b := st[len(st)-1]
-			st = st[:len(st)-1]
-			if seen[b] {
-				continue
-			}
-			seen[b] = true
-			for _, ins := range b.Instrs {
-				if isSortCall(ins) {
-					sorted = true
+		var exits []*ssa.BasicBlock
+		for b := range member {
+			for _, s := range b.Succs {
+				if !member[s] {
+					exits = append(exits, s)
 				}
 			}
-			st = append(st, b.Succs...)
 		}
-		out = append(out, mapRangeAppend{fn: fn, rng: rng, sorted: sorted, ranged: describeRanged(l.Over)})
+		m := mapRangeAppend{fn: fn, pos: l.Body.Instrs[0].Pos(), sorted: true, ranged: describeRanged(l.Over)}
+		for _, ins := range H.Instrs {
+			if n, ok := ins.(*ssa.Next); ok {
+				m.pos = n.Iter.Pos()
+			}
+		}
+		if !m.pos.IsValid() {
+			for _, ins := range l.Body.Instrs {
+				if ins.Pos().IsValid() {
+					m.pos = ins.Pos()
+					break
+				}
+			}
+		}
+		for _, t := range targets {
+			if !sortedFrom(exits, t) {
+				m.sorted = false
+				m.unsorted = append(m.unsorted, t.desc)
+			}
+		}
+		sort.Strings(m.unsorted)
+		out = append(out, m)
 	}
 	return out
+}
+
+func mapRangesWithAppend(fn *ssa.Function) []mapRangeAppend { return unorderedLoops(fn, nil) }
+
+// ---- lists in map order ----
+
+// unorderedProducer: a call whose result is a slice in map-iteration order.
+func unorderedProducer(ins ssa.Instruction) string {
+	call, ok := ins.(*ssa.Call)
+	if !ok {
+		return ""
+	}
+	if call.Call.IsInvoke() {
+		m := call.Call.Method
+		if m.Name() == "List" && m.Pkg() != nil && strings.HasSuffix(m.Pkg().Path(), "istio/pkg/kube/krt") {
+			return "krt List"
+		}
+		return ""
+	}
+	o := calleeObj(ins)
+	if o == nil || o.Pkg() == nil {
+		return ""
+	}
+	pp, n := o.Pkg().Path(), o.Name()
+	switch {
+	case strings.HasSuffix(pp, "istio/pkg/util/sets") && n == "UnsortedList":
+		return "UnsortedList"
+	case (strings.HasSuffix(pp, "istio/pkg/maps") || pp == "golang.org/x/exp/maps") && (n == "Keys" || n == "Values"):
+		return "maps." + n
+	}
+	return ""
+}
+
+// order-preserving element-wise transforms: the result is as unordered as the first argument
+func isOrderPassThrough(ins ssa.Instruction) bool {
+	o := calleeObj(ins)
+	if o == nil || o.Pkg() == nil {
+		return false
+	}
+	pp, n := o.Pkg().Path(), o.Name()
+	if strings.HasSuffix(pp, "istio/pkg/slices") || pp == "slices" {
+		switch n {
+		case "Map", "MapErr", "MapFilter", "Filter", "FilterInPlace", "Clone", "Reverse", "FilterDuplicates", "Flatten":
+			return true
+		}
+	}
+	return false
+}
+
+func isOrderInsensitiveSink(ins ssa.Instruction) bool {
+	o := calleeObj(ins)
+	if o == nil || o.Pkg() == nil {
+		return false
+	}
+	pp, n := o.Pkg().Path(), o.Name()
+	if strings.HasSuffix(pp, "istio/pkg/util/sets") {
+		return true // building or querying a set
+	}
+	if strings.HasSuffix(pp, "istio/pkg/slices") || pp == "slices" {
+		switch n {
+		case "Contains", "ContainsFunc", "FindFunc", "Index", "IndexFunc": // membership (FindFunc/Index on unique predicates)
+			return n == "Contains" || n == "ContainsFunc"
+		}
+	}
+	return false
+}
+
+type listUse struct {
+	pos      token.Pos
+	producer string
+	use      string
+}
+
+// unorderedListUses: for every producer call in fn, the order-sensitive uses of its (derived) value, unless the value
+// is handed to a sort call somewhere in the function.
+func unorderedListUses(fn *ssa.Function) (uses []listUse, derivedOf func(ssa.Value) bool, producers int) {
+	derivedAll := map[ssa.Value]bool{}
+	eachInstr(fn, func(ins ssa.Instruction) {
+		prod := unorderedProducer(ins)
+		if prod == "" {
+			return
+		}
+		producers++
+		root := ins.(ssa.Value)
+		derived := map[ssa.Value]bool{root: true}
+		work := []ssa.Value{root}
+		sorted := false
+		var found []listUse
+		add := func(v ssa.Value) {
+			if !derived[v] {
+				derived[v] = true
+				work = append(work, v)
+			}
+		}
+		for len(work) > 0 {
+			d := work[len(work)-1]
+			work = work[:len(work)-1]
+			if d.Referrers() == nil {
+				continue
+			}
+			for _, r := range *d.Referrers() {
+				switch x := r.(type) {
+				case *ssa.Phi:
+					add(x)
+				case *ssa.Slice:
+					add(x)
+				case *ssa.ChangeType:
+					add(x)
+				case *ssa.Convert:
+					add(x)
+				case *ssa.MakeInterface:
+					add(x) // only sort calls and returns matter below; logging is ignored
+				case *ssa.Store:
+					if x.Val != d {
+						continue
+					}
+					switch ad := x.Addr.(type) {
+					case *ssa.Alloc:
+						for _, rr := range *ad.Referrers() {
+							if ld, ok := rr.(*ssa.UnOp); ok && ld.Op == token.MUL {
+								add(ld)
+							}
+						}
+					case *ssa.FieldAddr:
+						found = append(found, listUse{x.Pos(), prod, "stored into field " + fieldVar(ad.X.Type(), ad.Field).Name()})
+					case *ssa.IndexAddr:
+						// varargs packing (logging) is ignored
+					}
+				case *ssa.Return:
+					if _, isIface := d.(*ssa.MakeInterface); !isIface {
+						found = append(found, listUse{x.Pos(), prod, "returned"})
+					}
+				case *ssa.Index, *ssa.IndexAddr:
+					var idx ssa.Value
+					if ia, ok := x.(*ssa.IndexAddr); ok {
+						idx = ia.Index
+					} else {
+						idx = x.(*ssa.Index).Index
+					}
+					if _, isConst := idx.(*ssa.Const); isConst {
+						found = append(found, listUse{r.Pos(), prod, "element picked by position"})
+					}
+					// iteration: handled through unorderedLoops with derivedOf
+				case ssa.CallInstruction:
+					cc := x.Common()
+					if bi, ok := cc.Value.(*ssa.Builtin); ok {
+						switch bi.Name() {
+						case "len", "cap":
+						case "append":
+							if len(cc.Args) > 1 && cc.Args[1] == d {
+								// append(dst, list...): the destination must be sorted afterwards
+								okAll := true
+								a := x.(ssa.Value)
+								ts := appendTargets(a, nil)
+								if len(ts) == 0 {
+									// plain local: the append result itself
+									ts = []appendTarget{{desc: "local"}}
+									add(a)
+									continue
+								}
+								for _, t := range ts {
+									if !sortedFrom([]*ssa.BasicBlock{x.Block()}, t) {
+										okAll = false
+									}
+								}
+								if !okAll {
+									found = append(found, listUse{x.Pos(), prod, "appended to " + ts[0].desc})
+								}
+							}
+						case "copy":
+							found = append(found, listUse{x.Pos(), prod, "copied"})
+						}
+						continue
+					}
+					if isSortCall(r) {
+						sorted = true
+						continue
+					}
+					if isOrderPassThrough(r) {
+						if v, ok := r.(ssa.Value); ok && len(cc.Args) > 0 && cc.Args[0] == d {
+							add(v)
+							continue
+						}
+					}
+					if isOrderInsensitiveSink(r) {
+						continue
+					}
+					if _, isIface := d.(*ssa.MakeInterface); isIface {
+						continue // boxed for a variadic ...any parameter: logging / formatting
+					}
+					name := "a function value"
+					if o := calleeObj(r); o != nil {
+						name = o.Name()
+					} else if cc.IsInvoke() {
+						name = cc.Method.Name()
+					}
+					found = append(found, listUse{x.Pos(), prod, "passed to " + name})
+				}
+			}
+		}
+		if !sorted {
+			uses = append(uses, found...)
+			for v := range derived {
+				derivedAll[v] = true
+			}
+		}
+	})
+	return uses, func(v ssa.Value) bool { return derivedAll[v] }, producers
 }
 
 func describeRanged(v ssa.Value) string {
@@ -184,19 +493,42 @@ func c17r1(c *Ctx) {
 	// frozen exceptions: function + ranged expression -> reason the order does not reach generated bytes
 	except := map[string]string{
 		"(*pilot/pkg/xds.DiscoveryServer).Clients|field adsClients": "list of connections for the push fan-out and debug pages; not part of any generated resource",
+		"pilot/pkg/xds.referencedSecrets|local map": "the slice has two consumers, both order-insensitive: an any-match scan in EcdsGenerator.Generate and a map insert keyed by the unique resource name in GeneratePullSecrets; 300 generations byte-identical (findings/C17-map-order S5)",
+		"(*pilot/pkg/xds.StatusGen).handleInternalRequest|UnsortedList|element picked by position": "the request is rejected unless the set has exactly one element (len check two lines above)",
+		"pilot/pkg/xds.parseAndValidateDebugRequest|UnsortedList|element picked by position":      "validateProxyAuthentication rejects the request unless the set has exactly one element",
 	}
 	var fns []*ssa.Function
 	for fn := range reach {
 		fns = append(fns, fn)
 	}
 	sort.Slice(fns, func(i, j int) bool { return fnKey(fns[i]) < fnKey(fns[j]) })
-	total, unsortedAll := 0, 0
+	total, unsortedAll, listFns := 0, 0, 0
 	var census []string
 	for _, fn := range fns {
 		if strings.HasSuffix(p.Fset.Position(fn.Pos()).Filename, "_test.go") {
 			continue
 		}
-		for _, m := range mapRangesWithAppend(fn) {
+		uses, derivedOf, producers := unorderedListUses(fn)
+		if producers > 0 {
+			listFns++
+			if armed[funcPkgPath(fn)] && len(uses) == 0 {
+				c.Check("lists in map order are sorted or used order-insensitively: "+stableFnName(fn), fn.Pos(), true, "")
+			}
+		}
+		for _, u := range uses {
+			key := stableFnName(fn) + "|" + u.producer + "|" + u.use
+			if !armed[funcPkgPath(fn)] {
+				census = append(census, key+" @"+p.pos(u.pos))
+				continue
+			}
+			if _, ok := except[key]; ok {
+				c.Check("list in map order (frozen exception): "+key, u.pos, true, "")
+				continue
+			}
+			c.Check("list in map order is sorted before its order is used: "+key, u.pos, false,
+				"the result of "+u.producer+" (elements in map iteration order) is "+u.use+" without being sorted in this function: the order of whatever is generated from it differs between runs and between istiod instances for the same state")
+		}
+		for _, m := range unorderedLoops(fn, derivedOf) {
 			total++
 			key := stableFnName(fn) + "|" + m.ranged
 			if !m.sorted {
@@ -204,23 +536,23 @@ func c17r1(c *Ctx) {
 			}
 			if !armed[funcPkgPath(fn)] {
 				if !m.sorted {
-					census = append(census, key+" @"+p.pos(m.rng.Pos()))
+					census = append(census, key+" @"+p.pos(m.pos))
 				}
 				continue
 			}
 			if _, ok := except[key]; ok && !m.sorted {
-				c.Check("map-range append (frozen exception): "+key, m.rng.Pos(), true, "")
+				c.Check("map-range append (frozen exception): "+key, m.pos, true, "")
 				continue
 			}
-			c.Check("map-range append is sorted afterwards: "+key, m.rng.Pos(), m.sorted,
-				"a slice is filled in the iteration order of a map/set and never sorted in this function: the order of the generated elements (and therefore the bytes) differs between runs and between istiod instances for the same state")
+			c.Check("map-range append is sorted afterwards: "+key, m.pos, m.sorted,
+				"a slice ("+strings.Join(m.unsorted, ", ")+") is filled in the iteration order of a map/set and that slice is never sorted afterwards in this function: the order of the generated elements (and therefore the bytes) differs between runs and between istiod instances for the same state")
 		}
 	}
 	sort.Strings(census)
 	if len(census) > 60 {
 		census = census[:60]
 	}
-	c.Infof("census over the whole generation graph: %d map-ranges with a loop-carried append, %d without a later sort in the same function; unarmed (outside endpoints/route/xds): %v", total, unsortedAll, census)
+	c.Infof("census over the whole generation graph: %d loops over a map / map-ordered list with a loop-carried append, %d of them with an append target that is not sorted afterwards in the same function; %d functions call a map-order list producer; unarmed (outside endpoints/route/xds): %v", total, unsortedAll, listFns, census)
 	c.Floor(6)
 }
 
